@@ -465,7 +465,50 @@ def gen_C06():
     hi = tr.expr(_nth_assigned(fn, "interval_upper", "np.maximum"))
     out.append(lean_def("straddle_lower", [("lo", "Rat"), ("pred", "Rat")], "Rat", "  " + lo))
     out.append(lean_def("straddle_upper", [("hi", "Rat"), ("pred", "Rat")], "Rat", "  " + hi))
-    return out + _boot_agg_defs()
+    return out + _boot_agg_defs() + _nonreporting_bounds_defs()
+
+
+class _BoundsFlow(NFlow):
+    """NFlow + `.values`, `x.clip(min=c)` / `x.clip(max=c)` (one-sided clips), `np.isclose(x, c)` read as equality (the tolerance of
+    isclose is idealised: the harness treats inputs within it as boundary cases)"""
+
+    def _e(self, n):
+        if isinstance(n, ast.Attribute) and n.attr == "values" and ast.unparse(n) not in self.env:
+            return self._e(n.value)
+        if (isinstance(n, ast.Call) and isinstance(n.func, ast.Attribute) and n.func.attr == "clip" and not n.args
+                and len(n.keywords) == 1 and n.keywords[0].arg in ("min", "max")):
+            f = "ElexModel.rmax" if n.keywords[0].arg == "min" else "ElexModel.rmin"
+            return f"({f} {self._num(self._e(n.func.value))} {self._e(n.keywords[0].value)})"
+        if isinstance(n, ast.Call) and ast.unparse(n.func) == "np.isclose" and len(n.args) == 2 and not n.keywords:
+            return f"(decide ({self._e(n.args[0])} = {self._e(n.args[1])}))"
+        return super()._e(n)
+
+
+def _nonreporting_bounds_defs():
+    """BootstrapElectionModel._generate_nonreporting_bounds: the clip bounds of a nonreporting unit's normalised margin / turnout
+    factor as functions of its expected-vote percentage and its partial observation (both branches of the estimand switch)"""
+    src, tree = _parse("models/BootstrapElectionModel.py")
+    fn = _find(tree, "BootstrapElectionModel", "_generate_nonreporting_bounds")
+    out = []
+    leaves = {"nonreporting_units.percent_expected_vote.values": "pev", "nonreporting_units[bootstrap_estimand]": "obs",
+              "self.y_unobserved_upper_bound": "ub", "self.y_unobserved_lower_bound": "lb", "self.z_unobserved_upper_bound": "ub",
+              "self.z_unobserved_lower_bound": "lb", "self.percent_expected_vote_error_bound": "eb"}
+    tests = [ast.unparse(n.test) for n in ast.walk(fn) if isinstance(n, ast.If)]
+    want = ["bootstrap_estimand == 'results_normalized_margin'", "bootstrap_estimand == 'turnout_factor'"]
+    if tests != want:
+        raise TranslateError("_generate_nonreporting_bounds: estimand switch " + repr(tests))
+    for k, (tag, params) in enumerate((("y", [("pev", "Rat"), ("obs", "Rat"), ("lb", "Rat"), ("ub", "Rat")]),
+                                       ("z", [("pev", "Rat"), ("obs", "Rat"), ("eb", "Rat"), ("lb", "Rat"), ("ub", "Rat")]))):
+        env = dict(leaves)
+        for j, t in enumerate(want):
+            env[t] = "true" if j == k else "false"
+        fl = _BoundsFlow(src, env)
+        fl.run(fn.body)
+        if fl.ret is None or not isinstance(fl.ret, ast.Tuple) or len(fl.ret.elts) != 2:
+            raise TranslateError("_generate_nonreporting_bounds: return (lower, upper)")
+        out.append(lean_def(f"{tag}_lower_bound", params, "Rat", "  " + fl.final(fl.value(fl.ret.elts[0]))))
+        out.append(lean_def(f"{tag}_upper_bound", params, "Rat", "  " + fl.final(fl.value(fl.ret.elts[1]))))
+    return out
 
 
 def _boot_agg_defs():
@@ -945,6 +988,14 @@ def _units_defs():
         if isinstance(n, ast.If) and "handle_unreporting" in ast.unparse(n.test):
             pol.append(ast.unparse(n.test) + " : " + " ; ".join(ast.unparse(s) for s in n.body))
     out.append(_strlist("unreporting_policy", pol))
+    # a feed row without an expected vote figure: what the handler makes of it before the frames are split
+    miss = []
+    for n in init.body:
+        if isinstance(n, ast.If) and "percent_expected_vote" in ast.unparse(n.test):
+            miss.append(ast.unparse(n.test) + " : " + " ; ".join(ast.unparse(s) for s in n.body))
+        elif isinstance(n, ast.Assign) and "percent_expected_vote" in ast.unparse(n.targets[0]):
+            miss.append(ast.unparse(n))
+    out.append(_strlist("missing_expected_vote", miss))
     return out
 
 
